@@ -80,6 +80,11 @@ let rec expr_of (x : sx) : dsl_expr =
     DeFunc (List.map (function A h -> hs h | _ -> failwith "param") ps,
             List.map (function L [A h; e] -> (hs h, expr_of e) | _ -> failwith "closed") cs,
             expr_of body)
+  | L [A "varu"; L imps; A h] -> DeVarU (List.map expr_of imps, hs h)
+  | L [A "ref"; a] -> DeRef (expr_of a)
+  | L [A "deref"; a] -> DeDeref (expr_of a)
+  | L [A "const"; A h; a] -> DeConst (hs h, expr_of a)
+  | L [A "nsdef"; b] -> DeNsDef (expr_of b)
   | _ -> failwith "expr_of: bad form"
 
 let loop_budget = nat_of_int 400
@@ -90,7 +95,7 @@ let model_lines ast =
   let obs = List.map string_of_cs (dsl_observe o) in
   let res = List.hd obs in
   (* a deterministic crash of the code (recorded finding): the implementation's trace ends with a CRASH line *)
-  if res = "abort:cycle" then (res, ["CRASH"])
+  if res = "abort:cycle" || res = "abort:nullimport" then (res, ["CRASH"])
   else (res, List.map2 (fun l s -> l ^ s) labels obs @ ["det 1"])
 
 let op_dsl_eval a =
@@ -98,7 +103,11 @@ let op_dsl_eval a =
   let (_, lines) = model_lines ast in
   List.iter emit lines
 
-let hostile_expected a = if str a "expect" "ok" = "crash" then "CRASH" else if has a "want" then "hostile " ^ str a "want" "ok" else "hostile ok"
+let hostile_want a = "hostile " ^ str a "want" "ok" ^ (if has a "show" then " " ^ hex_dec (str a "show" "-") else "")
+let hostile_expected a =
+  if str a "expect" "ok" = "crash" then "CRASH"
+  else if has a "bad" then hex_dec (str a "bad" "-")      (* a recorded wrong-outcome finding: on the unchanged tree it reproduces *)
+  else if has a "want" then hostile_want a else "hostile ok"
 let op_dsl_hostile a = emit (hostile_expected a)
 let op_dsl_syntax a = emit (Printf.sprintf "syntax %s:%s" (str a "line" "0") (str a "col" "0"))
 
@@ -133,7 +142,10 @@ let oracle_c15 script trace =
     | Some ("dsl_hostile", a) ->
       let l = take () in
       if is_bad_line l then fail (Printf.sprintf "step=%d crash hostile tag=%s mode=%s impl=%s" li (str a "tag" "none") (str a "mode" "main") (List.hd (toks_of l)))
-      else if has a "want" && l <> "hostile " ^ str a "want" "ok" then
+      else if has a "bad" && l = hex_dec (str a "bad" "-") then
+        (* a recorded wrong-value finding: the reproducer still yields the value the language reference does not define *)
+        fail (Printf.sprintf "step=%d known-wrong-value tag=%s got=%s" li (str a "tag" "none") l)
+      else if has a "want" && l <> hostile_want a then
         fail (Printf.sprintf "step=%d hostile-outcome tag=%s want=%s got=%s" li (str a "tag" "none") (str a "want" "ok") l)
       else if not (has a "want") && l <> "hostile ok" then
         fail (Printf.sprintf "step=%d crash hostile tag=%s mode=%s impl=%s" li (str a "tag" "none") (str a "mode" "main") (List.hd (toks_of l)))
